@@ -269,6 +269,7 @@ class LThread:
         self.wants = None          # lock it is about to acquire
         self.held = 0
         self.steps = 0
+        self.skip = 0              # number of upcoming lock yield points that belong to the current action
         self.error = None
         self.thread = None
 
@@ -303,6 +304,9 @@ class Controller:
         if t is None:
             return                  # main thread (setup outside the controller / result queries)
         if not self.fine and t.held > 0 and kind != "lock":
+            return
+        if kind == "lock" and t.skip > 0 and not self.fine:
+            t.skip -= 1
             return
         t.state = "parked"
         self.main_sem.release()
